@@ -1,31 +1,178 @@
+//! paseto-sim: deterministic simulation harness for rusty_paseto (see /verif/DESIGN.md).
+//!
+//!   paseto-sim run <property> [--tier quick|thorough] [--seed N] [--workers N] [--runs N]
+//!                  [--out partial.json] [--known file] [--replays dir] [--inbox file]
+//!   paseto-sim replay <file> [--known file]
+//!   paseto-sim outbox --seed N --out file
+//!   paseto-sim digest <property> [--seed N] [--runs N] [--workers N]     (determinism self-test)
+//!   paseto-sim list
+
+#[macro_use]
+mod macros;
 mod arena;
+mod gen;
 mod civil;
 mod env;
 mod faults;
 mod keys;
 mod model;
+mod oracle;
+mod outbox;
 mod prng;
+mod runner;
+mod scenarios;
 mod world;
+
+use gen::Tier;
+
+pub const DEFAULT_SEED: u64 = 20_261_002;
+
+fn arg_val(args: &[String], name: &str) -> Option<String> {
+    args.iter().position(|a| a == name).and_then(|i| args.get(i + 1).cloned())
+}
 
 fn main() {
     env::install_quiet_panic_hook();
-    env::install();
-    use model::*;
-    let run = Run {
-        v: 1, property: "smoke".into(), scenario: "smoke".into(), set: "A".into(), verif_seed: 1, run: 0,
-        keys: vec![KeySpec::Sym { hex: "00".repeat(32) }, KeySpec::Ed{seed_hex:"01".repeat(32)}],
-        events: vec![
-            Op::NewBuilder { b: 0, proto: Proto::V4L, layer: Layer::Batteries, now_ns: Ns(1_700_000_000_000_000_000) },
-            Op::BuilderOp { b: 0, op: BOp::SetClaim(ClaimSpec::Sub("me".into())) },
-            Op::Build { b: 0, key: 0, out: 0, entropy_seed: 7, entropy_fail: vec![], observe: false, now_ns: Ns(0) },
-            Op::NewVerifier { v: 0, spec: VerifierSpec { proto: Proto::V4L, layer: Layer::Batteries, key: 0, footer: None, assertion: None, default_validators: true, expect: vec![ClaimSpec::Sub("me".into())], expect_via_extend:false, validators: vec![], hash_seed: 3 } },
-            Op::Deliver { msg: 0, to: 0, now_ns: Ns(1_700_000_000_000_000_000 + 5), ticks: vec![Ns(1)], twin: true, control: None },
-            Op::Fault { src: 0, out: 1, kind: FaultKind::Truncate { n: 12 }, other: None },
-            Op::Deliver { msg: 1, to: 0, now_ns: Ns(1_700_000_000_000_000_000 + 5), ticks: vec![], twin: false, control: None },
-            Op::KeyParse { n: 32, text: "00ff".into() },
-        ],
-    };
-    println!("{}", serde_json::to_string_pretty(&run).unwrap());
-    let obs = world::execute(&run);
-    for o in &obs { println!("{}", serde_json::to_string(o).unwrap()); }
+    let args: Vec<String> = std::env::args().collect();
+    if args.len() < 2 {
+        eprintln!("usage: paseto-sim run|replay|outbox|digest|list …");
+        std::process::exit(2);
+    }
+    let seed = arg_val(&args, "--seed")
+        .or_else(|| std::env::var("VERIF_SEED").ok())
+        .and_then(|s| s.trim().parse::<u64>().ok())
+        .unwrap_or(DEFAULT_SEED);
+    let workers = arg_val(&args, "--workers").and_then(|s| s.parse().ok()).unwrap_or(16usize);
+    let known = arg_val(&args, "--known").unwrap_or_else(|| "/verif/known_findings.json".into());
+    match args[1].as_str() {
+        "list" => {
+            for s in scenarios::all() {
+                println!("{} {}", s.property, s.level);
+            }
+        }
+        "run" => {
+            let prop = args.get(2).cloned().unwrap_or_default();
+            let sc = match scenarios::lookup(&prop) {
+                Some(s) => s,
+                None => {
+                    eprintln!("harness: no scenario for property {:?}", prop);
+                    std::process::exit(2);
+                }
+            };
+            let tier = match arg_val(&args, "--tier").or_else(|| std::env::var("VERIF_TIER").ok()).as_deref() {
+                Some("thorough") => Tier::Thorough,
+                _ => Tier::Quick,
+            };
+            let inbox = match arg_val(&args, "--inbox") {
+                Some(p) => match std::fs::read_to_string(&p).ok().and_then(|s| serde_json::from_str(&s).ok()) {
+                    Some(v) => v,
+                    None => {
+                        eprintln!("harness: cannot read inbox {}", p);
+                        std::process::exit(2);
+                    }
+                },
+                None => vec![],
+            };
+            println!("VERIF_SEED={} property={} tier={:?} set={} workers={}", seed, prop, tier, runner::this_set(), workers);
+            let opts = runner::RunnerOpts {
+                tier,
+                verif_seed: seed,
+                workers,
+                runs_override: arg_val(&args, "--runs").and_then(|s| s.parse().ok()),
+                known_path: known,
+                replay_dir: arg_val(&args, "--replays").unwrap_or_else(|| "/verif/replays".into()),
+                inbox,
+                wall_cap_s: arg_val(&args, "--wall-cap").and_then(|s| s.parse().ok()).unwrap_or(0),
+            };
+            let (out, code) = runner::run_scenario(sc, opts);
+            let text = serde_json::to_string_pretty(&out).unwrap();
+            match arg_val(&args, "--out") {
+                Some(p) => {
+                    if let Err(e) = std::fs::write(&p, text) {
+                        eprintln!("harness: cannot write {}: {}", p, e);
+                        std::process::exit(2);
+                    }
+                }
+                None => println!("{}", text),
+            }
+            std::process::exit(code);
+        }
+        "replay" => {
+            let path = args.get(2).cloned().unwrap_or_default();
+            let code = runner::replay(scenarios::lookup, &path, &known);
+            std::process::exit(code);
+        }
+        "outbox" => {
+            let out = arg_val(&args, "--out").unwrap_or_else(|| "/dev/stdout".into());
+            env::install();
+            let v = outbox::emit(seed);
+            env::uninstall();
+            if let Err(e) = std::fs::write(&out, serde_json::to_string(&v).unwrap()) {
+                eprintln!("harness: cannot write {}: {}", out, e);
+                std::process::exit(2);
+            }
+        }
+        "digest" => {
+            // prints one line per run: run index, set, digest of (event list, observations, judgement)
+            let prop = args.get(2).cloned().unwrap_or_default();
+            let sc = match scenarios::lookup(&prop) {
+                Some(s) => s,
+                None => std::process::exit(2),
+            };
+            let runs: u64 = arg_val(&args, "--runs").and_then(|s| s.parse().ok()).unwrap_or(200);
+            let tier = match arg_val(&args, "--tier").as_deref() {
+                Some("thorough") => Tier::Thorough,
+                _ => Tier::Quick,
+            };
+            let ctx = std::sync::Arc::new(gen::GenCtx { verif_seed: seed, tier, inbox: vec![] });
+            let next = std::sync::Arc::new(std::sync::atomic::AtomicU64::new(0));
+            let res = std::sync::Arc::new(std::sync::Mutex::new(std::collections::BTreeMap::new()));
+            let mut hs = vec![];
+            for _ in 0..workers.max(1) {
+                let (ctx, next, res) = (ctx.clone(), next.clone(), res.clone());
+                hs.push(std::thread::Builder::new().stack_size(64 << 20).spawn(move || {
+                    env::install();
+                    loop {
+                        let i = next.fetch_add(1, std::sync::atomic::Ordering::Relaxed);
+                        if i >= runs {
+                            break;
+                        }
+                        let run = match (sc.gen)(&ctx, i) {
+                            Some(r) => r,
+                            None => continue,
+                        };
+                        if runner::run_set(&run) != runner::this_set() {
+                            continue;
+                        }
+                        let obs = world::execute(&run);
+                        let j = (sc.judge)(&run, &obs);
+                        let mut h = prng::str_hash(&serde_json::to_string(&run).unwrap());
+                        if !run.events.iter().any(|e| matches!(e, model::Op::Build { observe: true, .. })) {
+                            // v1.public signatures carry real RSA-PSS salt: digest their verdicts only
+                            let v1p = run.events.iter().any(|e| match e {
+                                model::Op::NewBuilder { proto, .. } | model::Op::CoreIssue { proto, .. } => *proto == model::Proto::V1P,
+                                _ => false,
+                            });
+                            if !v1p {
+                                h = prng::mix(&[h, prng::str_hash(&serde_json::to_string(&obs).unwrap())]);
+                            }
+                        }
+                        h = prng::mix(&[h, prng::str_hash(&j.trace.join("|")), j.evaluations, j.violations.len() as u64]);
+                        res.lock().unwrap().insert(i, h);
+                    }
+                    env::uninstall();
+                }).unwrap());
+            }
+            for h in hs {
+                h.join().unwrap();
+            }
+            for (i, h) in res.lock().unwrap().iter() {
+                println!("{} {:016x}", i, h);
+            }
+        }
+        _ => {
+            eprintln!("unknown command");
+            std::process::exit(2);
+        }
+    }
 }
